@@ -134,6 +134,7 @@ def subName (name : Option Nat) (nameLen : Nat) (tgt : Buf) : Except Err (Option
   | none => .ok none
   | some base => if base + nameLen ≤ tgt.size then .ok (some (base + nameLen)) else .error .oobWrite
 
+set_option linter.unusedVariables false in
 /-- `message_name_get`: the state of the `while (1)` loop at cursor `i` of the call that started at
     `off = buf_offset`.  `name = some base` is the pointer `&target[base]`, `none` is NULL.
     Returns the C return value (0 = malformed) and the target field. -/
@@ -320,8 +321,7 @@ theorem pass_inv {τ} (cur : Rr τ) (l : List (Rr τ)) :
       have e3 : inv (cur :: rest) = rest.countP (gt cur) + inv rest := rfl
       simp only [e1, e2]
       omega
-    · next h =>
-      have h1 := ih nxt
+    · have h1 := ih nxt
       have h2 : (pass nxt rest).1.countP (gt cur) = (nxt :: rest).countP (gt cur) :=
         (pass_perm nxt rest).countP_eq _
       have e1 : inv (cur :: (pass nxt rest).1) =
@@ -329,9 +329,12 @@ theorem pass_inv {τ} (cur : Rr τ) (l : List (Rr τ)) :
         simp [inv, h2]
       have e2 : inv (cur :: nxt :: rest) = (nxt :: rest).countP (gt cur) + inv (nxt :: rest) := rfl
       dsimp only
-      simp only [e1, e2]
+      rw [e1, e2]
+      refine ⟨by omega, fun hs => ?_⟩
+      have := h1.2 hs
       omega
 
+set_option linter.unusedVariables false in
 /-- `do { … } while (swap != 0);` on the list `hd :: tl` -/
 def bubble {τ} (hd : Rr τ) (tl : List (Rr τ)) : List (Rr τ) :=
   match h : pass hd tl with
